@@ -32,7 +32,17 @@ def inputs():
     two = gen.pdb_text([a + w[:1], b + w[1:]])
     a2 = gen.peptide(["ALA", "ASP", "HIS", "LYS", "SER"], chain="A")
     neutral = gen.pdb_text([a2, b])
-    return {"two-chains-pro": two, "neutral": neutral}
+    # a free amino acid as a chain of its own: N- and C-terminal at once
+    free = gen.transform(gen.peptide(["GLY"], chain="C", start=21), t=(0, 30, 0))
+    neutral_free = gen.pdb_text([a2, b, free])
+    # chain identifiers that pdb2pqr re-assigns: two peptides under one chain id (told apart by OXT), a lettered chain,
+    # waters without chain id between and after them
+    p1 = gen.peptide(["LYS", "ALA", "SER"], chain="A", start=1)
+    p2 = gen.transform(gen.peptide(["GLY", "ASP"], chain="A", start=4), t=(0, 0, 30))
+    p3 = gen.transform(gen.peptide(["ARG", "ALA", "TYR"], chain="B", start=11), t=(0, 30, 0))
+    w1 = gen.water((6, 14, 4), chain="", resseq=201) + gen.water((6, 44, 4), chain="B", resseq=202) + gen.water((6, 14, 34), chain="", resseq=203)
+    reassigned = gen.pdb_text([p1 + p2, w1[:1], p3, w1[1:]])
+    return {"two-chains-pro": two, "neutral": neutral, "neutral-free": neutral_free, "reassigned": reassigned}
 
 
 def parse_pqr(text, ws=None):
@@ -162,6 +172,19 @@ def run(ctx):
         a2 = a1 + [FORMAT_ARGS[k].replace("@FFOUT@", ffout) for k in toggled]
         jobs.append({"kind": "format", "input1": text, "input2": text, "args1": a1, "args2": a2, "toggled": toggled,
                      "what": f"{inp} {base} ff={ff} toggled={toggled} ffout={ffout if 'ffout' in toggled else None}"})
+    # chain identifiers re-assigned by pdb2pqr (hidden chain end, waters without chain id): --keep-chain must not reorder
+    for base in ("default", "nodebump-noopt"):
+        for toggled in (["keepChain"], ["keepChain", "whitespace"], ["keepChain", "ffout"]):
+            ff = gen.FORCE_FIELDS[(len(jobs) + ctx.seed) % 6]
+            a1 = [f"--ff={ff}"] + BASES[base]
+            a2 = a1 + [FORMAT_ARGS[k].replace("@FFOUT@", "AMBER") for k in toggled]
+            jobs.append({"kind": "format", "input1": texts["reassigned"], "input2": texts["reassigned"], "args1": a1, "args2": a2,
+                         "toggled": toggled, "what": f"reassigned-chains {base} ff={ff} toggled={toggled}"})
+    lig = os.path.join(core.REPO, "tests", "data", "acetate.mol2")
+    ligtext = gen.pdb_text([gen.peptide(["ALA", "SER", "LYS"], chain="A"), gen.ligand_hetatm(lig, move_to=(-14, -12, 6)),
+                            gen.water((6, 14, 4), chain="A", resseq=101)])
+    jobs.append({"kind": "format", "input1": ligtext, "input2": ligtext, "args1": ["--ff=AMBER", f"--ligand={lig}"],
+                 "args2": ["--ff=AMBER", f"--ligand={lig}", "--keep-chain"], "toggled": ["keepChain"], "what": "ligand complex toggled=['keepChain']"})
     # neutral termini with ffout (PARSE): names only in the PARSE scheme must still be written
     for ffout in (["AMBER", "CHARMM"] if ctx.quick else gen.FORCE_FIELDS):
         for neut in (["--neutralc"], ["--neutraln", "--neutralc"]):
@@ -186,6 +209,10 @@ def run(ctx):
     for neut, shift in ((["--neutraln"], -2), (["--neutralc"], 2), (["--neutraln", "--neutralc"], 0)):
         jobs.append({"kind": "neutral", "input1": texts["neutral"], "input2": texts["neutral"], "args1": ["--ff=PARSE"],
                      "args2": ["--ff=PARSE"] + neut, "toggled": neut, "shift": shift, "what": f"neutral termini {neut}"})
+    # with a one-residue chain (both termini on one residue): one more terminus of each kind
+    for neut, shift in ((["--neutraln"], -3), (["--neutralc"], 3), (["--neutraln", "--neutralc"], 0)):
+        jobs.append({"kind": "neutral", "input1": texts["neutral-free"], "input2": texts["neutral-free"], "args1": ["--ff=PARSE"],
+                     "args2": ["--ff=PARSE"] + neut, "toggled": neut, "shift": shift, "what": f"neutral termini, free amino acid {neut}"})
     res = core.pmap(_work, jobs, chunksize=1)
     traces = []
     for j, (r1, r2) in zip(jobs, res):
@@ -205,8 +232,16 @@ def run(ctx):
         if j["kind"] == "neutral":
             def q4(atoms):
                 return sum(int(round(float(a["q"]) * 10000)) for a in atoms)
-            term = {"1", "5", "11", "14"}       # chain-terminal residue numbers of the generated input
-            t.update(shift=j["shift"] * 10000, q1=q4(r1["atoms"]), q2=q4(r2["atoms"]),
+            term = {"1", "5", "11", "14", "21"}       # chain-terminal residue numbers of the generated inputs
+            # termini that the base run parameterises (their terminal atoms are written): those are the ones the options can
+            # neutralise; a one-residue chain is named as an N-terminal residue and its OXT stays unassigned
+            have = set((a["resseq"], a["name"]) for a in r1["atoms"])
+            n_n = sum(1 for rs in ("1", "11", "21") if (rs, "H2") in have or (rs, "H3") in have)
+            n_c = sum(1 for rs in ("5", "14", "21") if (rs, "OXT") in have)
+            shift = (-n_n if "--neutraln" in j["toggled"] else 0) + (n_c if "--neutralc" in j["toggled"] else 0)
+            if "free" not in j["what"] and shift != j["shift"]:
+                raise core.MachineryError(f"neutral relation: computed shift {shift}, expected {j['shift']} for {j['what']}")
+            t.update(shift=shift * 10000, q1=q4(r1["atoms"]), q2=q4(r2["atoms"]),
                      inner1=[a for a in r1["atoms"] if a["resseq"] not in term],
                      inner2=[a for a in r2["atoms"] if a["resseq"] not in term])
         traces.append(t)
